@@ -220,9 +220,48 @@ def leaf_matrix(ctx):
                     ctx.ok('clamp-median')
 
 
+def strict_by_config(ctx, spelling):
+    """the general configuration file says lazy_number_validation = <a spelling of false>: a JSON string is no number"""
+    import os
+    import shutil
+    from frappy.lib import generalConfig
+    from frappy.errors import BadValueError
+    from vf.runner import VERIF
+    case = {'kind': 'generalconfig', 'spelling': spelling}
+    if not isinstance(spelling, str) or spelling.strip().lower() not in ('false', '0', 'no', 'off'):
+        return
+    ctx.ev()
+    workdir = os.path.join(VERIF, '.work', f'c01cfg-{os.getpid()}')
+    os.makedirs(workdir, exist_ok=True)
+    saved = generalConfig._config
+    try:
+        path = os.path.join(workdir, 'generalConfig.cfg')
+        with open(path, 'w', encoding='utf-8') as f:
+            f.write(f'[FRAPPY]\nlogdir = {workdir}\npiddir = {workdir}\nconfdir = {workdir}\nlazy_number_validation = {spelling}\n')
+        generalConfig.init(path)
+        accepted = []
+        for T, x in (({'k': 'double'}, '5'), ({'k': 'int', 'min': 0, 'max': 9}, '5'), ({'k': 'scaled', 'scale': 0.1, 'lo': 0, 'hi': 100}, '5')):
+            try:
+                accepted.append((T['k'], x, specs.build(T).validate(x)))
+            except BadValueError:
+                pass
+            except Exception as e:   # noqa - neither refused nor converted
+                accepted.append((T['k'], x, repr(e)))
+        if accepted:
+            ctx.finding('reinterpret:string-as-number-although-configured-strict', case, f'lazy_number_validation = {spelling}: {accepted!r}')
+        else:
+            ctx.ok('strict-by-config')
+        ctx.nt(('generalconfig', spelling))
+    finally:
+        generalConfig._config = saved
+        shutil.rmtree(workdir, ignore_errors=True)
+
+
 def run_shard(ctx, shard):
     if shard['kind'] == 'leafmatrix':
         leaf_matrix(ctx)
+        for spelling in ('False', 'false', '0', 'no', 'off', 'FALSE', ' False '):
+            strict_by_config(ctx, spelling)
         return
     depth = 3 if shard['idx'] % 3 else 2
     drive(tree_case(depth), lambda case: run_case(ctx, case), shard['n'], ctx.seed * 1000 + shard['idx'])
@@ -241,6 +280,8 @@ def run_case(ctx, case):
                 return
             prev = o[1]
         evaluate(ctx, T, dt, case['side'], case.get('label', '?'), case['x'], case.get('prevlabel', 'none'), case.get('prev'), prev)
+    elif case['kind'] == 'generalconfig':
+        strict_by_config(ctx, case.get('spelling'))
     elif case['kind'] == 'clamp':
         from frappy.lib import clamp
         a, b, c = case['args']
